@@ -87,7 +87,47 @@ pub fn c10(r: &mut Rng, sz: &Sizes, out: &mut Vec<String>) {
     }
 }
 
+/// the typed queries of value/subtypes.rs on every shape of a pool: every (query, type argument) that has
+/// an impl, member names that are present / absent, tuple positions inside / outside
+pub fn subtype_ops(shapes: &[JsonShape], out: &mut Vec<String>) {
+    let tys = [
+        "Null", "Number", "String", "Boolean", "Array", "Tuple", "Object", "OneOf", "ONumber", "OString", "OBoolean", "OArray",
+        "OTuple", "OObject", "OOneOf",
+    ];
+    let hx = |t: &str| crate::wire::hex(t.as_bytes());
+    for s in shapes {
+        for t in tys {
+            out.push(format!("sub\tarr\t{t}\t{}\t{}\t0", sx(s), hx("")));
+            out.push(format!("sub\tone\t{t}\t{}\t{}\t0", sx(s), hx("")));
+            if let JsonShape::Object { content, .. } = s {
+                for k in content.keys().take(3) {
+                    out.push(format!("sub\tobj\t{t}\t{}\t{}\t0", sx(s), hx(k)));
+                }
+                out.push(format!("sub\tobj\t{t}\t{}\t{}\t0", sx(s), hx("no such key")));
+            }
+            if let JsonShape::Tuple { elements, .. } = s {
+                for i in 0..=elements.len().min(3) {
+                    out.push(format!("sub\ttup\t{t}\t{}\t{}\t{i}", sx(s), hx("")));
+                }
+            }
+        }
+        if let JsonShape::Tuple { elements, .. } = s {
+            let same: Vec<String> = elements.iter().map(sx).collect();
+            out.push(format!("tupof\t{}\t{}", sx(s), same.join("\t")).trim_end().to_string());
+            if !elements.is_empty() {
+                out.push(format!("tupof\t{}\t{}", sx(s), same[1..].join("\t")).trim_end().to_string());
+                let mut other = same.clone();
+                other[0] = "N".into();
+                out.push(format!("tupof\t{}\t{}", sx(s), other.join("\t")));
+            }
+        }
+    }
+}
+
 pub fn c02(r: &mut Rng, sz: &Sizes, out: &mut Vec<String>) {
+    let mut sp = small_shapes();
+    sp.extend(pool(r, sz.shapes / 4));
+    subtype_ops(&sp, out);
     for (a, b) in pairs(r, sz) {
         out.push(format!("subset\t{}\t{}", sx(&a), sx(&b)));
     }
